@@ -169,6 +169,38 @@ func runCheck(args []string) int {
 		}
 		get(fn).contract = true
 	}
+	// callers of functions / interface methods whose contract has a precondition tagged with this property:
+	// the precondition is checked at their call sites.
+	reqKeys := map[string]bool{}
+	for _, k := range sortedKeys(V.contracts) {
+		for _, r := range V.contracts[k].Requires {
+			if labelHasProp(r.Label, *prop) {
+				reqKeys[k] = true
+			}
+		}
+	}
+	if len(reqKeys) > 0 {
+		for _, fn := range P.All {
+			for _, b := range fn.Blocks {
+				for _, ins := range b.Instrs {
+					ci, ok := ins.(ssa.CallInstruction)
+					if !ok {
+						continue
+					}
+					cc := ci.Common()
+					if callee := cc.StaticCallee(); callee != nil {
+						if reqKeys[funcName(callee)] {
+							get(fn)
+						}
+					} else if cc.IsInvoke() {
+						if reqKeys["iface:"+typeStr(cc.Value.Type())+"."+cc.Method.Name()] {
+							get(fn)
+						}
+					}
+				}
+			}
+		}
+	}
 	sweepSet := map[string]bool{}
 	if len(cfg.SweepRoots) > 0 {
 		for n := range V.reachableFrom(cfg.SweepRoots) {
